@@ -308,8 +308,16 @@ package martian
 // writeHeaderOnlyResponse (verified): the head of a HEAD/1xx/204/304 response
 // is complete - every line written is terminated (the Trailer announcement
 // included) and exactly one empty line ends it.
+// (fmt.Fprintf on the client connection: a failed write is recorded; the one
+// format used for the status line ends the line it writes)
+//@ contract connFprintf(w io.Writer, format string, a []any) (n int, err error)
+//@ modifies pkg(bytes), elems(byte), sbStr, wErr(), openLine(w), blankN(w)
+//@ ensures wErr() == (old(wErr()) || err != nil)
+//@ ensures err == nil && format == "HTTP/%d.%d %03d %s\r\n" ==> !openLine(w) && blankN(w) == old(blankN(w))
+
 //@ func writeHeaderOnlyResponse
 //@ property C02 C12
+//@ callas fmt.Fprintf connFprintf
 //@ requires res != nil
 //@ modifies pkg(bytes), elems(byte), sbStr, wErr(), openLine(w), blankN(w)
 //@ ensures wErr() == (old(wErr()) || result != nil)
